@@ -433,7 +433,7 @@ pub fn run(ctx: &Ctx) {
             ctx,
             &fam,
             &m,
-            ExploreOpts { max_depth: depth, wall_cap: Duration::from_secs(ctx.tier.pick(45, 2400)), state_cap: ctx.tier.pick(200_000, 3_000_000), dedup: true },
+            ExploreOpts { max_depth: depth, wall_cap: Duration::from_secs(ctx.tier.pick(400, 2400)), state_cap: ctx.tier.pick(200_000, 3_000_000), dedup: true },
         );
     }
     sweep_list(ctx, "router_learns_nothing", &[RouterCase { rounds: 3 }], SweepOpts { chunk: 1, ..Default::default() }, run_router);
